@@ -179,13 +179,16 @@ func TestC17(t *testing.T) {
 			unreadableFile(t, r, dir, i)
 		}
 		completeFileAtAllTimes(t, r, dir)
+		for i := 0; i < 4; i++ {
+			endedByDeadline(t, r, dir, i)
+		}
 	}
 	stop()
 	if r.Only < 0 {
 		smoke(t, r, dir)
 		serverOverTime(t, r, dir)
 	}
-	r.Require("timelines_started_off_the_minute", "servers_followed_over_time", "uploads_checked", "failed_uploads", "retries_after_failure", "idle_periods_checked", "cancellations_checked", "uploads_with_write_during_window", "timelines", "suppressed_uploads_without_change", "uploads_hanging_past_the_limit", "timelines_on_reopened_database", "lone_activations", "uploads_racing_a_write", "backups_over_an_unreadable_file", "reads_of_the_file_during_saves", "failed_writes_in_timelines", "lone_version_deletions")
+	r.Require("servers_ended_by_a_deadline", "timelines_started_off_the_minute", "servers_followed_over_time", "uploads_checked", "failed_uploads", "retries_after_failure", "idle_periods_checked", "cancellations_checked", "uploads_with_write_during_window", "timelines", "suppressed_uploads_without_change", "uploads_hanging_past_the_limit", "timelines_on_reopened_database", "lone_activations", "uploads_racing_a_write", "backups_over_an_unreadable_file", "reads_of_the_file_during_saves", "failed_writes_in_timelines", "lone_version_deletions")
 	r.Rule("seeded timelines of ~20 events over virtual hours: sleep d in {0,1s,30s,59s,60s,61s,5min,1h}, bursts of 1-3 real database writes (put/activate/delete), endpoint mode switches (ok / 403 not retryable / 500 retryable / hold for d with a write landing inside the held upload), then a quiet tail, an idle hour and cancellation at a random point of the minute cycle. Distinct = (endpoint mode at upload, writes during window?, outcome) and the smoke case through server.New")
 }
 
@@ -942,4 +945,44 @@ func serverOverTime(t *testing.T, r *evid.Run, dir string) {
 		})
 		hs.Close()
 	}
+}
+
+// endedByDeadline: the server's context ends because its DEADLINE passes (a server run with a time limit: a
+// test fixture, a batch job) - not by a cancel call - at a moment when an upload is pending or in flight. The
+// task terminates all the same. (A task that spins instead keeps the bubble busy: the watchdog reports it.)
+func endedByDeadline(t *testing.T, r *evid.Run, dir string, idx int) {
+	r.Eval(1)
+	os.MkdirAll(filepath.Join(dir, fmt.Sprintf("deadline%d", idx)), 0o700)
+	path := filepath.Join(dir, fmt.Sprintf("deadline%d", idx), "db")
+	synctest.Test(t, func(t *testing.T) {
+		progress.Add(1)
+		t0 := time.Now()
+		kdb, err := db.Open(path, realdb.DummyKey("c17dl"), audit.New(io.Discard))
+		if err != nil {
+			t.Fatal(err)
+		}
+		su := realdb.Super()
+		kdb.Put(su, "seed", []byte("seed"))
+		ep := &endpoint{t0: t0, mode: "ok"}
+		limit := []time.Duration{90 * time.Second, 61 * time.Second, 4 * time.Minute, 150 * time.Second}[idx]
+		ctx, cancel := context.WithTimeout(context.Background(), limit)
+		defer cancel()
+		done := make(chan struct{})
+		go func() { defer close(done); server.VerifRunPeriodicBackup(ctx, kdb, newS3(ep), "backup-bucket") }()
+		time.Sleep(30 * time.Second)
+		kdb.Put(su, "k", []byte("written at 0:30"))
+		ep.set("hold", 10*time.Minute) // the upload that begins at 1:00 (or a later retry) hangs: it is in flight when the deadline passes
+		progress.Add(1)
+		select {
+		case <-done:
+			r.Count("servers_ended_by_a_deadline", 1)
+			r.Distinct(fmt.Sprintf("server ended by a deadline of %v", limit))
+			if at := time.Since(t0); at > limit+time.Second {
+				r.Violation("cancel-not-honoured", -1, fmt.Sprintf("the server's context expired (deadline) after %v with an upload in flight; the backup task returned only at %v", limit, at), nil)
+			}
+		case <-time.After(limit + 20*time.Minute):
+			r.Violation("cancel-not-honoured", -1, fmt.Sprintf("the server's context expired (deadline) after %v with an upload in flight; 20 minutes later the backup task has not returned", limit), nil)
+			cancel()
+		}
+	})
 }
